@@ -15,6 +15,7 @@ type Options struct {
 	Depth    int             // expression depth (default 3)
 	MaxStructs int           // plain structs besides interface implementations (default 2)
 	MaxIfaces  int           // interfaces (default: one with probability 1/2)
+	NoCompositeGlobals bool  // no slice/map/array/struct globals: nothing a run of main allocates stays reachable (C12)
 	NoLabels bool            // labelled break/continue cannot be rendered in .wz (w2parser never parses labels)
 	Exclude  map[string]bool // switches tied to known findings: see Excl* constants
 	Only     map[string]bool // when non-nil, only these statement features are generated (besides the basics)
